@@ -255,22 +255,29 @@ def dist_terms_rule(ctx):
     else:
         res.fail(Finding("DIST-TERMS", lp.module, lp.qualname, lp.node, "_log_prob must standardise with (inputs - means) * exp(-log_stds) and subtract sum(log_stds), with means / log_stds the first / second component of _compute_params (%s)" % verdict, construct="parameter roles in _log_prob"))
     s = cdn.methods.get("_sample")
-    oksmp = False
+    oksmp = None
+    from ..symexp import uwalk as _uw2
+
     for pp in paths_of(s.node):
         if pp.kind != "return":
             continue
-        from .flow_rules import strip_wrappers
-
-        core = strip_wrappers(pp.ret)
-        if isinstance(core, ast.BinOp) and isinstance(core.op, ast.Add):
+        c0 = "__component__(self._compute_params(context), 0)"
+        c1 = "torch.exp(__component__(self._compute_params(context), 1))"
+        # the reparameterisation, wherever it sits under reshapes / splits / transposes
+        for core in _uw2(pp.ret):
+            if not (isinstance(core, ast.BinOp) and isinstance(core.op, ast.Add)):
+                continue
             sides = [norm_text(core.left), norm_text(core.right)]
-            c0 = "__component__(self._compute_params(context), 0)"
-            c1 = "torch.exp(__component__(self._compute_params(context), 1))"
             for mean_t, noise_t in (sides, sides[::-1]):
-                if c0 in mean_t and "randn" not in mean_t and c1 not in mean_t and c1 in noise_t and "torch.randn(" in noise_t:
-                    oksmp = True
+                if c0 in mean_t and "randn" not in mean_t and "torch.randn(" in noise_t:
+                    if c1 not in mean_t and c1 in noise_t:
+                        oksmp = True
+                    elif oksmp is None:
+                        oksmp = False
     if oksmp:
         res.ok("ConditionalDiagonalNormal._sample: means + exp(log_stds) * noise")
+    elif oksmp is None:
+        res.undecide("ConditionalDiagonalNormal._sample", "no `means + <scale> * randn` found in the returned expression")
     else:
         res.fail(Finding("DIST-TERMS", s.module, s.qualname, s.node, "samples must be means + exp(log_stds) * standard normal noise", construct="reparameterisation in _sample"))
     mm = cdn.methods.get("_mean")
